@@ -4,7 +4,7 @@ PROPS[pid]["rules"] = [(rule id, floor of decided instances, selector over insta
 Floors are the numbers counted on the tree the rules were written against: a rule that suddenly
 matches fewer sites is a broken check (exit 2), never a silent pass.
 """
-from . import lt, td, pm, hs, ws, tf, ec, se, bb, lc, wf, dp, dt, he, gl, ts, ee, sl, wp, fs, ic, nb, im, rn, mp, sp, ms, cp, sh, st, rh, vo, wi, law, cn, pr, dtr, sa, vx
+from . import lt, td, pm, hs, ws, tf, ec, se, bb, lc, cm, wf, dp, dt, he, gl, ts, ee, sl, wp, fs, ic, nb, im, rn, mp, sp, ms, cp, sh, st, rh, vo, wi, law, cn, pr, dtr, sa, vx
 
 
 def has(*subs):
@@ -66,6 +66,7 @@ RULES = {
     "SE": {"run": se.run},
     "BB": {"run": bb.run},
     "LC": {"run": lc.run},
+    "CM": {"run": cm.run},
 }
 
 BDD_T = ("BddNode", "BddPtr")
@@ -183,7 +184,7 @@ PROPS = {
     "C04": {
         "level": "other",
         "rules": [("RN", 8, has("RN3")), ("HE", 7, has(*SDD_T)), ("GL", 2, has("GL3")), ("TS", 3, has("TS-OCC")),
-                  ("IM", 22, has("IM4")), ("RH", 14, None)],
+                  ("IM", 22, has("IM4")), ("RH", 14, None), ("CM", 3, None)],
         "explanation": "Order of SDD canonicalisation steps on every path to the unique tables (trim, compress, trim, sort, "
                        "sign-normalise, intern: RN3), Hash/Eq agreement of BinarySDD/SddOr/SddAnd and identity Hash/Eq of "
                        "SddPtr (HE), the shared unique-table rules (GL3, TS-OCC), nodes enter only through the tables (IM4). "
@@ -254,10 +255,10 @@ PROPS = {
     },
     "C15": {
         "level": "other",
-        "rules": [("EE", 1, None), ("IC", 5, has("repr::cnf::")), ("WP", 2, has("repr::cnf::")),
+        "rules": [("EE", 2, None), ("IC", 5, has("repr::cnf::")), ("WP", 2, has("repr::cnf::")),
                   ("FS", 3, has("repr::cnf::", "assignment_weight")), ("CN", 2, None),
                   ("PR", 1, has("CnfHasher")), ("LT", 2, has("CnfHasher")),
-                  ("PM", 9, None), ("HS", 4, None), ("LC", 3, has("is_sat_partial", "Cnf::eval", "Cnf::condition"))],
+                  ("PM", 9, None), ("HS", 5, None), ("LC", 3, has("is_sat_partial", "Cnf::eval", "Cnf::condition"))],
         "explanation": "Brute-force counting leaves its enumeration loop only when the assignment iterator is exhausted (EE); "
                        "Cnf's variable count is max label + 1 (IC); the residual hasher's pos/neg tables are selected and "
                        "indexed by the same literal (WP); counting accumulators are seeded with zero/one (FS). Not decided: "
